@@ -1028,6 +1028,15 @@ func (c *Conn) closeWithError(err error) error {
 		}
 
 		c.mux.Unlock()
+		if h := c.onConnected; h != nil {
+			// a dial that is still in progress ends here (Close, Stop):
+			// its outcome is reported; h ignores all but the first call.
+			dialErr := err
+			if dialErr == nil {
+				dialErr = net.ErrClosed
+			}
+			h(c, dialErr)
+		}
 		return c.closeWithErrorWithoutLock(err)
 	}
 	c.mux.Unlock()
